@@ -589,3 +589,36 @@ def impl_c08(case, scratch):
 def json_str(s):
     import json as _j
     return _j.dumps(s)
+
+
+# ---------------------------------------------------------------- parse (C02/C03/C19/C01)
+_parse_ctx = None
+
+
+def parse_ctx(scratch):
+    global _parse_ctx
+    if _parse_ctx is None:
+        ctx = new_ctx(scratch)
+        ctx.add_page("Template:a", 10, "A[{{{1|}}}]")
+        ctx.add_page("Template:hd", 10, "== Generated ==")
+        ctx.db_conn.commit()
+        _parse_ctx = ctx
+    return _parse_ctx
+
+
+def impl_parse_many(case, scratch):
+    """case: texts -> canonical trees (one context, start_page per text)"""
+    ctx = parse_ctx(scratch)
+    outs = []
+    for t in case["texts"]:
+        ctx.start_page(case.get("title", "Tt"))
+        try:
+            tree = ctx.parse(t, **case.get("kw", {}))
+            outs.append({"tree": _tree(tree), "pstack": len(ctx.parser_stack),
+                         "debugs": len(ctx.debugs), "errors": [e["msg"][:80] for e in ctx.errors]})
+        except BaseException as e:  # noqa
+            import traceback
+            tb = traceback.extract_tb(e.__traceback__)
+            outs.append({"raised": type(e).__name__, "where": tb[-1].name if tb else "", "msg": str(e)[:200]})
+            ctx.parser_stack = []
+    return {"outcome": "ok", "outs": outs}
